@@ -61,85 +61,97 @@ func isOsCall(ins ssa.Instruction, name string) bool {
 func c16R1(p *core.Prog, r *core.Report) {
 	const rule = "C16/R1"
 	r.Rule(rule, "compaction commit: rename of rewrite.aof.tmp precedes every removal of an input; no other step of a compaction removes files", 2)
-	fn := mustFunc(p, r, "server.(*Aof).clearRewriteAofFiles")
-	if fn != nil {
-		var early []string
-		pos := ""
-		total := 0
-		ex := core.NewExplorer(p, core.Hooks{
-			Track: func(x *core.X, a core.Atom) bool { return strings.Contains(a.String(), "\"rewrite.aof\"") },
-			Instr: func(x *core.X) {
-				if !x.Top() {
-					return
+	// The commit is observed from the compaction routine itself, with the commit
+	// helper (when there is one) explored inline: the rule is about the order of
+	// the file-system effects, not about which function holds them.
+	rw := mustFunc(p, r, "server.(*Aof).rewriteAofFiles")
+	if rw == nil {
+		return
+	}
+	commit := p.Func("server.(*Aof).clearRewriteAofFiles") // may have been inlined by hand
+	var early []string
+	pos, firstPos := "", ""
+	total := 0
+	ex := core.NewExplorer(p, core.Hooks{
+		Inline: func(x *core.X, callee *ssa.Function) bool { return commit != nil && callee == commit },
+		Track:  func(x *core.X, a core.Atom) bool { return strings.Contains(a.String(), "\"rewrite.aof\"") },
+		Instr: func(x *core.X) {
+			if !x.Top() && !(commit != nil && underFrame(x, commit)) {
+				return
+			}
+			recordVarargs(x)
+			if isOsCall(x.Ins, "Rename") {
+				a := pathArg(x, x.Ins, 0)
+				if strings.Contains(a, "\"rewrite.aof.tmp\"") {
+					x.Set("published", "1")
 				}
-				recordVarargs(x)
-				if isOsCall(x.Ins, "Rename") {
-					a := pathArg(x, x.Ins, 0)
-					if strings.Contains(a, "\"rewrite.aof.tmp\"") {
-						x.Set("published", "1")
-					}
+			}
+			if isOsCall(x.Ins, "Remove") {
+				total++
+				if firstPos == "" {
+					firstPos = x.Pos()
 				}
-				if isOsCall(x.Ins, "Remove") {
-					total++
-					if x.Get("published") == "1" {
-						// after publishing: a removed name must not be the published one
-						a := core.Plain(pathArg(x, x.Ins, 0))
-						literal := strings.Contains(a, "\"") && !strings.Contains(a, "rewrite.aof\"") // a constant other name
-						guarded := false
-						for h := range x.St.Hist {
-							if strings.HasSuffix(h, " != \"rewrite.aof\"") || strings.HasPrefix(h, "\"rewrite.aof\" != ") {
-								guarded = true
-							}
-						}
-						if !literal && !guarded && !strings.Contains(a, "Sprintf(") {
-							r.Violate(rule, "server.(*Aof).clearRewriteAofFiles: retire after publish", x.Pos(), "after rewrite.aof.tmp was renamed into place an input is removed whose name is not shown to differ from rewrite.aof (the input list contains the previous snapshot): the snapshot just published is deleted, the next restart recovers nothing from it", x.St.Trace)
-						}
-					}
-					if x.Get("published") != "1" {
-						k := siteKey(p, x.Ins)
-						dup := false
-						for _, e := range early {
-							if e == k {
-								dup = true
-							}
-						}
-						if !dup {
-							early = append(early, k)
-							if pos == "" {
-								pos = x.Pos()
-							}
+				if x.Get("published") == "1" {
+					// after publishing: a removed name must not be the published one
+					a := core.Plain(pathArg(x, x.Ins, 0))
+					literal := strings.Contains(a, "\"") && !strings.Contains(a, "rewrite.aof\"") // a constant other name
+					guarded := false
+					for h := range x.St.Hist {
+						if strings.HasSuffix(h, " != \"rewrite.aof\"") || strings.HasPrefix(h, "\"rewrite.aof\" != ") {
+							guarded = true
 						}
 					}
+					if !literal && !guarded && !strings.Contains(a, "Sprintf(") {
+						r.Violate(rule, "compaction commit: retire after publish", x.Pos(), "after rewrite.aof.tmp was renamed into place an input is removed whose name is not shown to differ from rewrite.aof (the input list contains the previous snapshot): the snapshot just published is deleted, the next restart recovers nothing from it", x.St.Trace)
+					}
 				}
-			},
-		})
-		ex.Run(fn, nil)
-		key := "server.(*Aof).clearRewriteAofFiles: publish before retire"
-		if total == 0 {
-			r.Fail("C16/R1: no os.Remove found in clearRewriteAofFiles")
-		} else if len(early) > 0 {
-			r.Violate(rule, key, pos, fmt.Sprintf("%d removal site(s) of compaction inputs execute before rewrite.aof.tmp is renamed into place: a crash in between leaves only rewrite.aof.tmp, which a restart ignores", len(early)), nil)
-		} else {
-			r.Hold(rule, key, p.Pos(fn.Pos()), "snapshot renamed into place before the inputs are removed")
-		}
+				if x.Get("published") != "1" {
+					k := siteKey(p, x.Ins)
+					dup := false
+					for _, e := range early {
+						if e == k {
+							dup = true
+						}
+					}
+					if !dup {
+						early = append(early, k)
+						if pos == "" {
+							pos = x.Pos()
+						}
+					}
+				}
+			}
+		},
+	})
+	ex.Run(rw, nil)
+	if ex.Imprecise != "" {
+		r.Fail("C16/R1: %s", ex.Imprecise)
+	}
+	key := "compaction commit: publish before retire"
+	if total == 0 {
+		r.Fail("C16/R1: no os.Remove found in the compaction commit (rewriteAofFiles / clearRewriteAofFiles)")
+	} else if len(early) > 0 {
+		r.Violate(rule, key, pos, fmt.Sprintf("%d removal site(s) of compaction inputs execute before rewrite.aof.tmp is renamed into place: a crash in between leaves only rewrite.aof.tmp, which a restart ignores", len(early)), nil)
+	} else {
+		r.Hold(rule, key, firstPos, "snapshot renamed into place before the inputs are removed")
 	}
 	// no other removal during a compaction
-	if rw := mustFunc(p, r, "server.(*Aof).rewriteAofFiles"); rw != nil {
-		commit := p.Func("server.(*Aof).clearRewriteAofFiles")
-		for _, b := range rw.Blocks {
-			for _, ins := range b.Instrs {
-				c := core.StaticCallee(ins)
-				if c == nil || !core.InModule(c) {
-					continue
-				}
-				key := siteKey(p, ins)
-				if c == commit {
-					r.Hold(rule, key, p.InstrPos(ins), "the commit step")
-					continue
-				}
-				if reachesRemove(p, c, map[*ssa.Function]bool{}) {
-					r.Violate(rule, key, p.InstrPos(ins), "compaction calls "+c.Name()+", which removes files, outside its commit step (inputs or value files can vanish before the snapshot is published)", nil)
-				}
+	for _, b := range rw.Blocks {
+		for _, ins := range b.Instrs {
+			c := core.StaticCallee(ins)
+			if c == nil || !core.InModule(c) {
+				continue
+			}
+			key := siteKey(p, ins)
+			if commit != nil && c == commit {
+				r.Hold(rule, key, p.InstrPos(ins), "the commit step")
+				continue
+			}
+			if p.IsNewFunc(c) {
+				continue // explored inline above: its removals were ordered against the publish
+			}
+			if reachesRemove(p, c, map[*ssa.Function]bool{}) {
+				r.Violate(rule, key, p.InstrPos(ins), "compaction calls "+c.Name()+", which removes files, outside its commit step (inputs or value files can vanish before the snapshot is published)", nil)
 			}
 		}
 	}
@@ -318,19 +330,28 @@ func c16R5(p *core.Prog, r *core.Report) {
 	const rule = "C16/R5"
 	r.Rule(rule, "commit only after a clean load; temporary snapshot flushed and closed before it is returned", 2)
 	if fn := mustFunc(p, r, "server.(*Aof).rewriteAofFiles"); fn != nil {
+		commit := p.Func("server.(*Aof).clearRewriteAofFiles")
+		seen := 0
 		ex := core.NewExplorer(p, core.Hooks{
 			Track: func(x *core.X, a core.Atom) bool { return strings.HasPrefix(core.Plain(a.L), "loadRewriteAofFiles(") },
 			Instr: func(x *core.X) {
-				if !x.Top() || !calleeIs(x.Ins, "Aof", "clearRewriteAofFiles") {
+				if !x.Top() || x.Get("committing") == "1" {
 					return
 				}
+				// the commit begins at the call of the commit helper or, when it was
+				// inlined by hand, at the first rename / removal
+				if !(commit != nil && core.StaticCallee(x.Ins) == commit) && !isOsCall(x.Ins, "Rename") && !isOsCall(x.Ins, "Remove") {
+					return
+				}
+				x.Set("committing", "1")
+				seen++
 				ok := false
 				for h := range x.St.Hist {
 					if strings.HasPrefix(h, "loadRewriteAofFiles(") && strings.HasSuffix(h, " == nil") {
 						ok = true
 					}
 				}
-				key := siteKey(p, x.Ins)
+				key := "server.(*Aof).rewriteAofFiles: commit after a clean load"
 				if ok {
 					r.Hold(rule, key, x.Pos(), "load error tested nil before the commit")
 				} else {
@@ -339,6 +360,9 @@ func c16R5(p *core.Prog, r *core.Report) {
 			},
 		})
 		ex.Run(fn, nil)
+		if seen == 0 {
+			r.Fail("C16/R5: no commit step found in rewriteAofFiles")
+		}
 	}
 	if fn := mustFunc(p, r, "server.(*Aof).loadRewriteAofFiles"); fn != nil {
 		ex := core.NewExplorer(p, core.Hooks{
